@@ -53,34 +53,44 @@ theorem walkNext_ok (hc : CfgOK cfg) (k : Kind) {L : Layout} {hints : Hints} (hL
       s'.minAlign = s.minAlign ∧ s'.resps = s.resps ∧ s'.reqs = s.reqs ∧ (∃ j, s'.cur = .chunk j) ∧
       (∀ v s'', o = some (v, s'') → s'' = s' ∧
         ∃ sx j, GeomInv cfg sx ∧ SameShape s sx ∧ sx.minAlign = s.minAlign ∧ sx.cur = .chunk j ∧ i < j ∧
-          tryCurSpec cfg k sx L = some (v, s')) := by
+          tryCurSpec cfg k sx L = some (v, s')) ∧
+      (∀ j, j ≤ i → s'.chunks[j]? = s.chunks[j]?) := by
   intro fuel
   induction fuel with
   | zero =>
     intro i s h hcur
-    exact ⟨none, s, rfl, h, SameShape.refl _, rfl, rfl, rfl, hcur, fun _ _ hx => by cases hx⟩
+    exact ⟨none, s, rfl, h, SameShape.refl _, rfl, rfl, rfl, hcur, fun _ _ hx => (by cases hx), fun _ _ => rfl⟩
   | succ fuel ih =>
     intro i s h hcur
     unfold walkNext
     cases hn : s.chunks[i+1]? with
-    | none => exact ⟨none, s, rfl, h, SameShape.refl _, rfl, rfl, rfl, hcur, fun _ _ hx => by cases hx⟩
+    | none => exact ⟨none, s, rfl, h, SameShape.refl _, rfl, rfl, rfl, hcur, fun _ _ hx => (by cases hx), fun _ _ => rfl⟩
     | some c =>
       obtain ⟨h1, hs1⟩ := h.nextChunk hc hn
+      have hset : ∀ j, j ≤ i → (s.chunks.set (i+1) (c.resetPos cfg))[j]? = s.chunks[j]? := by
+        intro j hj
+        rw [List.getElem?_set, if_neg (by omega)]
       simp only [tryCur_eq hc h1 k hL hh, r_ok_bind]
       cases ht : tryCurSpec cfg k { s with chunks := s.chunks.set (i+1) (c.resetPos cfg), cur := .chunk (i+1) } L with
       | none =>
-        obtain ⟨o, s', e1, e2, e3, e4, e5, e6, e7, e8⟩ := ih (i+1) _ h1 ⟨i+1, rfl⟩
-        refine ⟨o, s', e1, e2, hs1.trans e3, e4, e5, e6, e7, ?_⟩
-        intro v s'' hx
-        obtain ⟨f1, sx, j, f2, f3, f4, f5, f6, f7⟩ := e8 v s'' hx
-        exact ⟨f1, sx, j, f2, hs1.trans f3, f4, f5, by omega, f7⟩
+        obtain ⟨o, s', e1, e2, e3, e4, e5, e6, e7, e8, e9⟩ := ih (i+1) _ h1 ⟨i+1, rfl⟩
+        refine ⟨o, s', e1, e2, hs1.trans e3, e4, e5, e6, e7, ?_, ?_⟩
+        · intro v s'' hx
+          obtain ⟨f1, sx, j, f2, f3, f4, f5, f6, f7⟩ := e8 v s'' hx
+          exact ⟨f1, sx, j, f2, hs1.trans f3, f4, f5, by omega, f7⟩
+        · intro j hj
+          rw [e9 j (by omega)]
+          exact hset j hj
       | some r =>
         obtain ⟨v, s2⟩ := r
         obtain ⟨g1, g2, g3, g4, g5, g6⟩ := tryCurSpec_inv hc h1 hL ht
-        refine ⟨some (v, s2), s2, rfl, g1, hs1.trans g2, g4, g5, g6, ⟨i+1, g3⟩, ?_⟩
-        intro v' s'' hx
-        cases hx
-        exact ⟨rfl, _, i+1, h1, hs1, rfl, rfl, Nat.lt_succ_self i, ht⟩
+        refine ⟨some (v, s2), s2, rfl, g1, hs1.trans g2, g4, g5, g6, ⟨i+1, g3⟩, ?_, ?_⟩
+        · intro v' s'' hx
+          cases hx
+          exact ⟨rfl, _, i+1, h1, hs1, rfl, rfl, Nat.lt_succ_self i, ht⟩
+        · intro j hj
+          rw [tryCurSpec_other hc h1 hL ht (c := i+1) rfl (by omega)]
+          exact hset j hj
 
 /-! ## the fresh chunk fits -/
 
@@ -95,6 +105,14 @@ def freshTry (cfg : Cfg) (k : Kind) (L : Layout) (hints : Hints) (r : State × E
     | some (v, s'') => pure (s'', .ok v)
     | none => throw (.ub "unreachable_unchecked: the layout does not fit the chunk that was created for it")
 
+/-- the continuation after `append_for` in the `.chunk i` branch: when the request for a new chunk
+    failed the allocator stays in chunk `i` (fix c107ca6) -/
+def freshTryAt (cfg : Cfg) (k : Kind) (L : Layout) (hints : Hints) (i : Nat) (r : State × Except AErr Nat) :
+    R (State × Except AErr (Nat × Nat)) :=
+  match r with
+  | (s'', .error e) => pure ({ s'' with cur := .chunk i }, .error e)
+  | r => freshTry cfg k L hints r
+
 theorem inAnotherChunk_eq (cfg : Cfg) (k : Kind) (s : State) (L : Layout) (hints : Hints) :
     inAnotherChunk cfg k s L hints =
       match s.cur with
@@ -104,9 +122,37 @@ theorem inAnotherChunk_eq (cfg : Cfg) (k : Kind) (s : State) (L : Layout) (hints
         walkNext cfg k L hints (s.chunks.length - (i+1)) i s >>= fun x =>
           match x with
           | (some (v, s'), _) => pure (s', .ok v)
-          | (none, s') => appendFor cfg s' L >>= freshTry cfg k L hints := by
+          | (none, s') => appendFor cfg s' L >>= freshTryAt cfg k L hints i := by
   unfold inAnotherChunk
   rfl
+
+/-- `freshTryAt` is `freshTry` followed by restoring the current chunk on failure -/
+def fixCur (i : Nat) (x : State × Except AErr (Nat × Nat)) : R (State × Except AErr (Nat × Nat)) :=
+  match x with
+  | (s3, .error e) => pure ({ s3 with cur := .chunk i }, .error e)
+  | (s3, .ok v) => pure (s3, .ok v)
+
+theorem freshTryAt_eq (cfg : Cfg) (k : Kind) (L : Layout) (hints : Hints) (i : Nat) (r : State × Except AErr Nat) :
+    freshTryAt cfg k L hints i r = freshTry cfg k L hints r >>= fixCur i := by
+  obtain ⟨s2, r2⟩ := r
+  cases r2 with
+  | error e => rfl
+  | ok j =>
+    show freshTry cfg k L hints (s2, .ok j) = _
+    unfold freshTry
+    simp only
+    cases tryCur cfg k { s2 with cur := .chunk j } L hints with
+    | error f => rfl
+    | ok o =>
+      cases o with
+      | none => rfl
+      | some x => obtain ⟨v, s''⟩ := x; rfl
+
+theorem bind_freshTryAt (cfg : Cfg) (k : Kind) (L : Layout) (hints : Hints) (i : Nat) (x : R (State × Except AErr Nat)) :
+    (x >>= freshTryAt cfg k L hints i) = ((x >>= freshTry cfg k L hints) >>= fixCur i) := by
+  cases x with
+  | error f => rfl
+  | ok r => exact freshTryAt_eq cfg k L hints i r
 
 /-- the state in which the freshly created chunk `i` is current satisfies the invariant, and the
     layout that caused the chunk fits it (this is why `unreachable_unchecked` is unreachable) -/
@@ -157,7 +203,7 @@ structure FreshPost (cfg : Cfg) (k : Kind) (L : Layout) (size : Nat) (s1 s3 : St
   inv : GeomInv cfg s3
   resps : RespsOK cfg s3
   minAlign : s3.minAlign = s1.minAlign
-  err : ∀ e, r = .error e → SameShape s1 s3 ∧ s3.cur = s1.cur
+  err : ∀ e, r = .error e → SameShape s1 s3 ∧ s3.cur = s1.cur ∧ s3.chunks = s1.chunks
   ok : ∀ v, r = .ok v → s3.cur = .chunk s1.chunks.length ∧
     ∃ c, s3.chunks.map Chunk.shape = s1.chunks.map Chunk.shape ++ [Chunk.shape c] ∧ size ≤ c.size ∧
       ∃ p g rest sx, s1.resps = .granted p g :: rest ∧ c.base = p ∧ c.size ≤ g ∧
@@ -181,7 +227,7 @@ theorem freshTry_newChunk (hc : CfgOK cfg) {s1 : State} (h1 : GeomInv cfg s1) (h
     | error e =>
       refine ⟨s2, .error e, rfl, g1, g2, g4, ?_, fun v hv => (by cases hv), newChunkSpec_trace he⟩
       intro e' _
-      exact ⟨by unfold SameShape; rw [g5 e rfl], g3⟩
+      exact ⟨by unfold SameShape; rw [g5 e rfl], g3, g5 e rfl⟩
     | ok i =>
       obtain ⟨hinv, v, s3, ht⟩ := fresh_fits hc h1 hr k hL hk hhint hs he
       obtain ⟨hi, p, g, rest, hrs, hg, hle, hch⟩ := g6 i rfl
@@ -236,6 +282,8 @@ structure SlowPost {α : Type} (cfg : Cfg) (L : Layout) (s s' : State) (r : Exce
       s'.chunks.map Chunk.shape = s.chunks.map Chunk.shape ++ [Chunk.shape c] ∧ size ≤ c.size ∧
       s'.cur = .chunk s.chunks.length
   trace : Trace s s'
+  /-- failure leaves the current chunk as it was (fix c107ca6) -/
+  cur_err : ∀ e, r = .error e → s'.cur = s.cur
 
 theorem SameShape.getLast_size {s s' : State} (h : SameShape s s') {last : Chunk} (hl : s'.chunks.getLast? = some last) :
     ∃ last', s.chunks.getLast? = some last' ∧ last'.size = last.size := by
@@ -277,7 +325,7 @@ theorem inAnotherChunk_ok' (hc : CfgOK cfg) {s : State} (h : GeomInv cfg s) (hr 
     intro s' r he
     cases he
     exact ⟨⟨h, hr, rfl, fun hx => (by rw [hcur] at hx; cases hx), fun v hv => (by cases hv), Or.inl (SameShape.refl _),
-      Trace.refl _⟩, fun v hv => (by cases hv)⟩
+      Trace.refl _, fun _ _ => rfl⟩, fun v hv => (by cases hv)⟩
   | unallocated =>
     simp only [newChunkForCapacity_eq hc hL]
     cases hs : Spec.calcSize cfg.up cfg.hdr (Nat.max (Spec.hintFromCapacity cfg.up cfg.hdr L) cfg.minChunk) with
@@ -286,7 +334,7 @@ theorem inAnotherChunk_ok' (hc : CfgOK cfg) {s : State} (h : GeomInv cfg s) (hr 
       intro s' r he
       cases he
       exact ⟨⟨h, hr, rfl, fun _ => ⟨hcur, SameShape.refl _⟩, fun v hv => (by cases hv), Or.inl (SameShape.refl _),
-        Trace.refl _⟩, fun v hv => (by cases hv)⟩
+        Trace.refl _, fun _ _ => rfl⟩, fun v hv => (by cases hv)⟩
     | some size =>
       have hreq : requestSize cfg s L = some size := by
         unfold requestSize; simp only [hcur]; exact hs
@@ -297,7 +345,8 @@ theorem inAnotherChunk_ok' (hc : CfgOK cfg) {s : State} (h : GeomInv cfg s) (hr 
       refine ⟨?_, fun hb => f2 (hb size hreq)⟩
       intro s' r he
       have fp := f1 s' r he
-      refine ⟨⟨fp.inv, fp.resps, fp.minAlign, ?_, fun v hv => ⟨_, (fp.ok v hv).1⟩, ?_, fp.trace⟩, ?_⟩
+      refine ⟨⟨fp.inv, fp.resps, fp.minAlign, ?_, fun v hv => ⟨_, (fp.ok v hv).1⟩, ?_, fp.trace,
+        fun e he => (by subst he; exact (fp.err e rfl).2.1)⟩, ?_⟩
       · intro hx
         cases r with
         | error e => exact ⟨hcur, (fp.err e rfl).1⟩
@@ -312,7 +361,7 @@ theorem inAnotherChunk_ok' (hc : CfgOK cfg) {s : State} (h : GeomInv cfg s) (hr 
         refine ⟨sx, q4, q5, q8, Or.inr ⟨p, g, rest, c, q1, q2, q3, ?_, q6⟩⟩
         rw [q7, List.map_append]; rfl
   | chunk i =>
-    obtain ⟨o, s1, w1, w2, w3, w4, w5, w6, w7, w8⟩ :=
+    obtain ⟨o, s1, w1, w2, w3, w4, w5, w6, w7, w8, w9⟩ :=
       walkNext_ok hc k hL hh (s.chunks.length - (i+1)) i s h ⟨i, hcur⟩
     simp only [w1, r_ok_bind]
     have hr1 : RespsOK cfg s1 := by intro x hx; rw [w5] at hx; exact hr x hx
@@ -325,7 +374,7 @@ theorem inAnotherChunk_ok' (hc : CfgOK cfg) {s : State} (h : GeomInv cfg s) (hr 
       intro s' r he
       cases he
       refine ⟨⟨w2, hr1, w4, fun hx => (by obtain ⟨j, hj⟩ := w7; rw [hj] at hx; cases hx), fun _ _ => w7, Or.inl w3,
-        Trace.of_shape w3 w5⟩, ?_⟩
+        Trace.of_shape w3 w5, fun e he => (by cases he)⟩, ?_⟩
       intro v' hv'
       cases hv'
       exact ⟨sx, x1, x3, x6, Or.inl ⟨x2, i, j, hcur, x4, x5⟩⟩
@@ -334,6 +383,13 @@ theorem inAnotherChunk_ok' (hc : CfgOK cfg) {s : State} (h : GeomInv cfg s) (hr 
       obtain ⟨cj, hcj, _⟩ := w2.cur j hj
       obtain ⟨last, hlast⟩ := getLast?_isSome_of_getElem? hcj
       obtain ⟨last', hlast', hsz⟩ := w3.getLast_size hlast
+      -- chunk `i`, where the allocator stays on failure, was not touched by the walk
+      obtain ⟨ci, hci, hdi⟩ := h.cur i hcur
+      have hci1 : s1.chunks[i]? = some ci := by rw [w9 i (Nat.le_refl i)]; exact hci
+      have hback : ∀ s2 : State, GeomInv cfg s2 → s2.chunks = s1.chunks → s2.minAlign = s.minAlign →
+          GeomInv cfg { s2 with cur := .chunk i } := by
+        intro s2 h2 hch hma
+        exact h2.withCur (by rw [hch]; exact hci1) (by rw [hma]; exact hdi)
       simp only [appendFor_eq hc hL hlast]
       cases hs : Spec.calcSize cfg.up cfg.hdr
           (Nat.max (Nat.max (Spec.hintFromCapacity cfg.up cfg.hdr L) (2 * last.size)) cfg.minChunk) with
@@ -341,8 +397,8 @@ theorem inAnotherChunk_ok' (hc : CfgOK cfg) {s : State} (h : GeomInv cfg s) (hr 
         refine ⟨?_, fun _ => ⟨_, _, rfl⟩⟩
         intro s' r he
         cases he
-        exact ⟨⟨w2, hr1, w4, fun hx => (by rw [hj] at hx; cases hx), fun v hv => (by cases hv), Or.inl w3,
-          Trace.of_shape w3 w5⟩, fun v hv => (by cases hv)⟩
+        exact ⟨⟨hback s1 w2 rfl w4, hr1, w4, fun hx => (by cases hx), fun v hv => (by cases hv), Or.inl w3,
+          Trace.of_shape w3 w5, fun _ _ => hcur.symm⟩, fun v hv => (by cases hv)⟩
       | some size =>
         have hreq : requestSize cfg s L = some size := by
           unfold requestSize; simp only [hcur, hlast', hsz]; exact hs
@@ -350,32 +406,37 @@ theorem inAnotherChunk_ok' (hc : CfgOK cfg) {s : State} (h : GeomInv cfg s) (hr 
             Nat.max (Nat.max (Spec.hintFromCapacity cfg.up cfg.hdr L) (2 * last.size)) cfg.minChunk := by
           rw [Lemmas.Size.natmax, Lemmas.Size.natmax]; omega
         obtain ⟨f1, f2⟩ := freshTry_newChunk hc w2 hr1 k hL hh hk hhint hs (hints := hints)
+        simp only [bind_freshTryAt]
         refine ⟨?_, ?_⟩
         · intro s' r he
-          have fp := f1 s' r he
-          refine ⟨⟨fp.inv, fp.resps, fp.minAlign.trans w4, ?_, fun v hv => ⟨_, (fp.ok v hv).1⟩, ?_,
-            fp.trace.pre w3 w5⟩, ?_⟩
-          · intro hx
-            cases r with
-            | error e => rw [(fp.err e rfl).2, hj] at hx; cases hx
-            | ok v => rw [(fp.ok v rfl).1] at hx; cases hx
-          · cases r with
-            | error e => exact Or.inl (w3.trans (fp.err e rfl).1)
-            | ok v =>
-              obtain ⟨e1, c, e2, e3, _⟩ := fp.ok v rfl
-              refine Or.inr ⟨c, size, hreq, ?_, e3, ?_⟩
-              · rw [e2]; congr 1
-              · rw [e1, w3.length]
-          · intro v hv
-            obtain ⟨e1, c, e2, e3, p, g, rest, sx, q1, q2, q3, q4, q5, q6, q7, q8⟩ := fp.ok v hv
-            refine ⟨sx, q4, q5.trans w4, q8, Or.inr ⟨p, g, rest, c, by rw [← w5]; exact q1, q2, q3, ?_, ?_⟩⟩
-            · rw [q7, List.map_append]
-              have : s1.chunks.map Chunk.shape = s.chunks.map Chunk.shape := w3
-              rw [this]; rfl
-            · rw [q6, w3.length]
+          obtain ⟨⟨s3, r3⟩, h3, hfx⟩ := bind_eq_ok he
+          have fp := f1 s3 r3 h3
+          cases r3 with
+          | error e =>
+            cases hfx
+            obtain ⟨x1, x2, x3⟩ := fp.err e rfl
+            exact ⟨⟨hback s3 fp.inv x3 (fp.minAlign.trans w4), fp.resps, fp.minAlign.trans w4, fun hx => (by cases hx),
+              fun v hv => (by cases hv), Or.inl (w3.trans x1), fp.trace.pre w3 w5, fun _ _ => hcur.symm⟩,
+              fun v hv => (by cases hv)⟩
+          | ok v =>
+            cases hfx
+            obtain ⟨e1, c, e2, e3, p, g, rest, sx, q1, q2, q3, q4, q5, q6, q7, q8⟩ := fp.ok v rfl
+            refine ⟨⟨fp.inv, fp.resps, fp.minAlign.trans w4, fun hx => (by rw [e1] at hx; cases hx),
+              fun _ _ => ⟨_, e1⟩, Or.inr ⟨c, size, hreq, ?_, e3, ?_⟩, fp.trace.pre w3 w5, fun e he => (by cases he)⟩, ?_⟩
+            · rw [e2]; congr 1
+            · rw [e1, w3.length]
+            · intro v' hv'
+              cases hv'
+              refine ⟨sx, q4, q5.trans w4, q8, Or.inr ⟨p, g, rest, c, by rw [← w5]; exact q1, q2, q3, ?_, ?_⟩⟩
+              · rw [q7, List.map_append]
+                have : s1.chunks.map Chunk.shape = s.chunks.map Chunk.shape := w3
+                rw [this]; rfl
+              · rw [q6, w3.length]
         · intro hb
           obtain ⟨r0, rest, hrs, hok⟩ := hb size hreq
-          exact f2 ⟨r0, rest, by rw [w5]; exact hrs, hok⟩
+          obtain ⟨s3, r3, h3⟩ := f2 ⟨r0, rest, by rw [w5]; exact hrs, hok⟩
+          rw [h3]
+          cases r3 <;> exact ⟨_, _, rfl⟩
 
 theorem inAnotherChunk_ok (hc : CfgOK cfg) {s : State} (h : GeomInv cfg s) (hr : RespsOK cfg s) (k : Kind)
     {L : Layout} {hints : Hints} (hL : L.Valid) (hh : hints.sma = true → L.align ∣ L.size)
@@ -388,11 +449,15 @@ theorem inAnotherChunk_ok (hc : CfgOK cfg) {s : State} (h : GeomInv cfg s) (hr :
 
 theorem SlowPost.map {α β : Type} {cfg : Cfg} {L : Layout} {s s' : State} {r : Except AErr α} (f : α → β)
     (p : SlowPost cfg L s s' r) : SlowPost cfg L s s' (r.map f) := by
-  refine ⟨p.inv, p.resps, p.minAlign, p.unalloc, ?_, p.shape, p.trace⟩
-  intro v hv
-  cases r with
-  | error e => cases hv
-  | ok a => exact p.cur_ok a rfl
+  refine ⟨p.inv, p.resps, p.minAlign, p.unalloc, ?_, p.shape, p.trace, ?_⟩
+  · intro v hv
+    cases r with
+    | error e => cases hv
+    | ok a => exact p.cur_ok a rfl
+  · intro e he
+    cases r with
+    | error e' => exact p.cur_err e' rfl
+    | ok a => cases he
 
 theorem allocGeneric_ok (hc : CfgOK cfg) {s : State} (h : GeomInv cfg s) (hr : RespsOK cfg s) (k : Kind)
     {L : Layout} {hints hSlow : Hints} (hL : L.Valid) (hh : hints.sma = true → L.align ∣ L.size)
@@ -410,7 +475,7 @@ theorem allocGeneric_ok (hc : CfgOK cfg) {s : State} (h : GeomInv cfg s) (hr : R
     refine ⟨?_, fun _ => ⟨_, _, rfl⟩⟩
     intro s' r he
     cases he
-    refine ⟨g1, fun x hx => hr x (g5 ▸ hx), g4, ?_, fun _ _ => ⟨j, g3.trans hj⟩, Or.inl g2, Trace.of_shape g2 g5⟩
+    refine ⟨g1, fun x hx => hr x (g5 ▸ hx), g4, ?_, fun _ _ => ⟨j, g3.trans hj⟩, Or.inl g2, Trace.of_shape g2 g5, fun e he => (by cases he)⟩
     intro hx
     rw [g3, hj] at hx; cases hx
 
